@@ -407,16 +407,30 @@ impl<'a> ParserState<'a> {
     /// - the function shouldn't be called while pos == 0, but this case would behave like pos==1
     pub(crate) fn get_line_offset(&self) -> u32 {
         if self.token_cursor.pos > 1 && self.token_cursor.pos < self.token_cursor.tokens.len() {
-            let prev_token = &self.token_cursor.tokens[self.token_cursor.pos - 2];
+            // comments that are not stored with a block (inside IF_DATA, between the parameters of an
+            // element, at the top level of the file) are not written, so the offset must be relative
+            // to the last token before such comments
+            let mut prev_pos = self.token_cursor.pos - 2;
+            while prev_pos > 0
+                && self.token_cursor.tokens[prev_pos].ttype == A2lTokenType::Comment
+                && self.kept_comment_pos != Some(prev_pos)
+            {
+                prev_pos -= 1;
+            }
+            let prev_token = &self.token_cursor.tokens[prev_pos];
             let mut prev_line = prev_token.line;
-            if self.kept_comment_pos == Some(self.token_cursor.pos - 2) {
+            if prev_token.ttype == A2lTokenType::Comment && self.kept_comment_pos != Some(prev_pos) {
+                // only unstored comments precede this token: it is the first one that is written
+                prev_line = 1;
+            }
+            if self.kept_comment_pos == Some(prev_pos) {
                 // a comment token carries the line on which it starts. If the comment is stored and
                 // written again, then its line breaks are written as part of the comment text, so
                 // they must not be counted a second time in the offset of the following token
                 let newlines = self.get_token_text(prev_token).matches('\n').count();
                 prev_line += u32::try_from(newlines).unwrap_or(0);
             }
-            let prev_fileid = self.token_cursor.tokens[self.token_cursor.pos - 2].fileid;
+            let prev_fileid = prev_token.fileid;
             let cur_line = self.token_cursor.tokens[self.token_cursor.pos - 1].line;
             let cur_fileid = self.token_cursor.tokens[self.token_cursor.pos - 1].fileid;
 
